@@ -4,6 +4,7 @@ from cohdl._compiler.frontend import generate_internal_representation
 from cohdl._compiler.backend import generate_vhdl
 
 from ._prefix import _Prefix
+from . import _context
 
 
 class _CompileState:
@@ -16,10 +17,14 @@ class _CompileState:
 
     def __enter__(self):
         self._prefix_scope = list(_Prefix._prefix_scope)
+        self._current_context = _context._current_context
+        self._current_context_data = _context._current_context_data
         return self
 
     def __exit__(self, *args):
         _Prefix._prefix_scope[:] = self._prefix_scope
+        _context._current_context = self._current_context
+        _context._current_context_data = self._current_context_data
 
 
 class VhdlCompiler:
